@@ -497,6 +497,24 @@ func (S06) RunTape(t *sim.Tape, st *sim.Stats, keepLog bool) *sim.Outcome {
 			}
 			info.NAccess = ctr.n
 			s.Log.Add(fmt.Sprintf("STORE %s err=%v", kindNames[kind], err != nil))
+			// A failed, cancelled or refused store must leave nothing behind inside the library (an
+			// encoder, buffer or writer kept for reuse that remembers the failure): the same node, asked
+			// for again through the same link system with healthy storage, gets its link and is stored.
+			seam.NextWrite = func() *simstore.WriteFault { return &simstore.WriteFault{Sync: syncCap} }
+			var l2, l3 datamodel.Link
+			var e2, e3 error
+			if p2 := catch(func() { l2, e2 = lsys.ComputeLink(lp.LinkPrototype, n3) }); p2 != "" || e2 != nil {
+				o.Fail("failed-store-left-a-trace", sig, "after a Store under %s (its error: %v), a fault-free ComputeLink of the same node failed: err=%v panic=%s", kindNames[kind], err, e2, p2)
+			}
+			if p3 := catch(func() { l3, e3 = lsys.Store(linking.LinkContext{}, lp.LinkPrototype, n3) }); p3 != "" || e3 != nil {
+				o.Fail("failed-store-left-a-trace", sig, "after a Store under %s (its error: %v), a fault-free Store of the same node failed: err=%v panic=%s", kindNames[kind], err, e3, p3)
+			} else if b, ok := be.bytesOf(l3); !ok || !hashesTo(l3, b) {
+				o.Fail("store-link-hash", sig, "after a Store under %s, a fault-free Store of the same node returned %v but storage has no bytes hashing to it", kindNames[kind], l3)
+			} else if l2 != nil && l2.Binary() != l3.Binary() {
+				o.Fail("failed-store-left-a-trace", sig, "after a Store under %s, ComputeLink (%v) and Store (%v) of the same node disagree", kindNames[kind], l2, l3)
+			} else {
+				st.Inc("probe.store_repeated_after_faulted_store")
+			}
 		})
 	}
 	if client2 {
